@@ -1,5 +1,5 @@
 """C01 — reads return the latest committed write, wherever the data lives."""
-from gen import lib, vfn, dbh
+from gen import lib, vfn, dbh, cache
 
 PROP_FILE = "props/C01.v"
 RULE = ("dbhist: single-client histories of put/delete/batch/get/compact_range/reopen (options "
@@ -9,7 +9,7 @@ RULE = ("dbhist: single-client histories of put/delete/batch/get/compact_range/r
         "is judged by the extracted model (shape, lookup path, contents). vfn: lookup-candidate "
         "functions (find_file_with_upper_bound_range, get_overlapping_files, some_file_overlaps_range, "
         "pick_level_for_memtable_output) on random versions. Non-trivial: a history with at least one "
-        "write; distinct by sha1.")
+        "write; distinct by sha1. cache: random insert / get / remove sequences on the real LRUCache (the block cache and table cache of the read path) with capacities 2..9 against the extracted model, values and entry counts compared step by step.")
 TRUSTED = ["API specification = sorted map (coq/model/DbSpec.v); LSM model coq/model/Lsm.v"]
 ASSUMPTIONS = ["single client; the background thread is only synchronised with at W tokens"]
 
@@ -28,18 +28,23 @@ def gen_cases(tier, rng):
 
 def suites(tier, seed, rng):
     return [dbh.DbSuite(dbh.corpus("C01") + gen_cases(tier, rng)),
-            vfn.VfnSuite("vfn", vfn.gen(tier, rng, {"ffub", "plmo"}), lambda i, s, c: True)]
+            vfn.VfnSuite("vfn", vfn.gen(tier, rng, {"ffub", "plmo"}), lambda i, s, c: True),
+            cache.CacheSuite(cache.gen_cases(tier, rng))]
 
 
 def replay_suites(rp):
     if rp.get("suite") == "vfn":
         return [vfn.VfnSuite("vfn", [rp["case"]], lambda i, s, c: True)]
+    if rp.get("suite") == "cache":
+        return [cache.CacheSuite([rp["case"]])]
     return [dbh.DbSuite([rp["case"]])]
 
 
 def still_fails(suite, case, workdir):
     if suite == "vfn":
         return vfn.still_fails(case, workdir)
+    if suite == "cache":
+        return cache.still_fails(case, workdir)
     return dbh.still_fails(case, workdir)
 
 
@@ -48,6 +53,8 @@ def nontrivial(suite, case):
 
 
 def classify(suite, case):
+    if suite == "cache":
+        return "cache:cap=" + case.split(" ")[1]
     if suite == "vfn":
         return "vfn:" + case.split(" ")[2]
     n = len(case.split(" "))
